@@ -311,6 +311,7 @@ def _vt(v):
 
 class C20(Check):
     id = "C20"
+    thorough_pinned = True  # full thorough enumeration observed quiet on the unchanged tree
     level = "exploration"
     shrink_fields = ()
     rule = (
